@@ -213,7 +213,9 @@ fn $name(a: $t, b: $t, obs: &mut Obs) -> PResult {
                 ensure!(!i.is_degenerate(), "C14/width/degenerate", "{i:?} reported degenerate");
             }
         } else {
-            obs.exclude("width of [inf, inf] (inf - inf)");
+            // [inf, inf]: the difference is NaN, but the interval is still two-sided (and degenerate)
+            ensure!(i.width().map(|w| w.is_nan()) == Some(true) && i.is_degenerate(), "C14/width/two", "{i:?}: width() = {:?}, is_degenerate() = {} for a two-sided interval with equal infinite bounds", i.width(), i.is_degenerate());
+            obs.exclude("value of the width of [inf, inf] (inf - inf)");
         }
     }
     if a > b {
